@@ -433,7 +433,7 @@ pub fn run(tier: &Tier) -> i32 {
     };
     let mut cov = Coverage::default();
     cov.exhaustive = true;
-    cov.rule = "every case = (source instruction, pre-state) executed through Preprocessor+Interpreter and compared with the reference MUL/DIV/BCD semantics (outcome NEXT vs INT 0, AX/DX, CF/OF, frame). Byte forms: all 256 AL x all 256 operands x a set of AH values (all 256 in thorough); word forms: (DX,AX,operand) boundary lattice cubed plus, for every divisor (every 7th in quick), the dividends at the quotient-overflow boundary; all 2^16 AX x AF x CF for the eight adjust instructions; every operand form incl. the implicit registers as explicit operand; 8 end-to-end divide-error programs through the CLI binary Word operands also run through 512 values away from the boundaries (every low byte under a fixed high byte and the reverse) against the lattice, both ways round, and through 8 fixed RELATIONS between the two operands (equal, low byte complemented, complemented, successor, bytes swapped, negated, doubled, halved+0x4000) for every 16-bit x. Histories: every sequence of up to 3 (thorough 4) instructions over the property's instructions plus a 21-instruction context alphabet (register, memory, stack and flag traffic, data-label operands, DS/ES loaded by pop and by mov), with at least one of the property's instructions, as ONE program on ONE machine and ONE Interpreter object from 3 initial states, compared with the reference after every step (whole memory on every 16th run)".into();
+    cov.rule = "every case = (source instruction, pre-state) executed through Preprocessor+Interpreter and compared with the reference MUL/DIV/BCD semantics (outcome NEXT vs INT 0, AX/DX, CF/OF, frame). Byte forms: all 256 AL x all 256 operands x a set of AH values (all 256 in thorough); word forms: (DX,AX,operand) boundary lattice cubed plus, for every divisor (every 7th in quick), the dividends at the quotient-overflow boundary; all 2^16 AX x AF x CF for the eight adjust instructions; every operand form incl. the implicit registers as explicit operand; 8 end-to-end divide-error programs through the CLI binary Word operands also run through 512 values away from the boundaries (every low byte under a fixed high byte and the reverse) against the lattice, both ways round, and through 8 fixed RELATIONS between the two operands (equal, low byte complemented, complemented, successor, bytes swapped, negated, doubled, halved+0x4000) for every 16-bit x. Histories: every sequence of up to 3 (thorough 4) instructions over the property's instructions plus a 22-instruction context alphabet (register, memory, stack and flag traffic, data-label operands, DS/ES loaded by pop and by mov), with at least one of the property's instructions, as ONE program on ONE machine and ONE Interpreter object from 3 initial states, compared with the reference after every step (whole memory on every 16th run)".into();
     cov.bounds = json!({"ah_values": ahs.len(), "word_lattice": lat.len(), "divisor_stride": stride, "forms": fs.len(), "sequence_depth": seq_depth, "sequences": seq.sequences, "sequence_steps": seq.steps, "sequence_whole_memory_audits": seq.audits, "tier": tier.name()});
     cov.assumptions = common_assumptions();
     cov.assumptions.push("IDIV whose quotient is exactly -2^(w-1): divide error (8086) or result (later CPUs) both accepted".into());
